@@ -16,9 +16,9 @@ RULE = ("Each (workload, cluster state) pair is first run without a stop to coun
         "message delivered to a simulated broker, every connection made and every timer firing); it is then re-run "
         "deterministically with stop() issued right after the k-th event, for every k <= N (thorough) or for a "
         "stride of k plus both ends (quick). Workloads: plain / idempotent / transactional producer "
-        "(mid-transaction), group consumer (second member joining mid-run), group-less consumer; cluster "
+        "(mid-transaction), group consumer (second member joining mid-run), group-less consumer (getmany or getone loop); cluster "
         "states: healthy, one broker refusing or black-holing connections, coordinator unreachable, "
-        "coordinator and leaders failing over, coordinator refusing commits with REBALANCE_IN_PROGRESS. Non-trivial = stop issued while >=1 request was in flight, or a "
+        "coordinator and leaders failing over, coordinator refusing commits with REBALANCE_IN_PROGRESS, one broker accepting connections without ever answering. Non-trivial = stop issued while >=1 request was in flight, or a "
         "rebalance was in progress, or a broker was unreachable. Distinct = distinct (workload, state, k).")
 ASSUMPTIONS = ["simulated cluster (vlib/simkafka), virtual-time loop with exact deadlock detection",
                "bound for stop(): 4*request_timeout + session_timeout + rebalance_timeout + 20*retry_backoff + 2 s (virtual)",
@@ -29,9 +29,13 @@ WORKLOADS = ["producer_plain", "producer_idempotent", "producer_txn", "consumer_
              # the application drops its subscription/assignment right before stop() (a common shutdown sequence)
              "consumer_group_unsub", "consumer_groupless_unsub",
              # a group-less consumer that subscribes by topic: its assignment is replaced when the topic grows
-             "consumer_groupless_subscribe"]
+             "consumer_groupless_subscribe",
+             # the application reads record by record (async-for style): its getone() is parked while stop() runs
+             "consumer_groupless_getone"]
 STATES = ["healthy", "node_refusing", "node_blackholed", "coordinator_refusing", "coordinator_blackholed", "failover",
-          "commits_refused", "fenced"]
+          "commits_refused", "fenced",
+          # the host accepts connections but never answers: stop() lands inside connection handshakes
+          "node_silent"]
 CFG = {"request_timeout_ms": 400, "retry_backoff_ms": 20, "session_timeout_ms": 1000, "rebalance_timeout_ms": 800,
        "heartbeat_interval_ms": 100}
 RUN_FOR = 1.2
@@ -67,6 +71,8 @@ async def _scenario(workload, state, stop_at, obs, loop, net):
         env.append({"at": t_ev, "ev": "node_down", "node": 1})
     elif state == "node_blackholed":
         env.append({"at": t_ev, "ev": "node_down", "node": 1, "blackhole": True})
+    elif state == "node_silent":
+        env.append({"at": t_ev, "ev": "node_down", "node": 1, "silent": True})
     elif state == "coordinator_refusing":
         env.append({"at": t_ev, "ev": "node_down", "node": 1})
     elif state == "coordinator_blackholed":
@@ -82,7 +88,7 @@ async def _scenario(workload, state, stop_at, obs, loop, net):
         # the coordinator answers every OffsetCommit but the first with REBALANCE_IN_PROGRESS (the member's
         # generation stays valid, so it is still a member that has to leave on stop())
         c.set_faults([{"sel": "offset_commit", "k": k, "act": "error", "code": 27} for k in range(1, 80)])
-    if state in ("node_refusing", "node_blackholed"):
+    if state in ("node_refusing", "node_blackholed", "node_silent"):
         # the coordinators live on the healthy node in these two states
         c.txn_coord_node = 0
         c.group_coord_node = 0
@@ -142,7 +148,10 @@ async def _scenario(workload, state, stop_at, obs, loop, net):
         async def app():
             try:
                 while True:
-                    await client.getmany(timeout_ms=50)
+                    if workload == "consumer_groupless_getone":
+                        await client.getone()
+                    else:
+                        await client.getmany(timeout_ms=50)
             except (KafkaError, ConsumerStoppedError, asyncio.CancelledError, Exception):
                 return
         app_tasks.append(asyncio.ensure_future(app()))
@@ -235,6 +244,23 @@ async def _scenario(workload, state, stop_at, obs, loop, net):
             except Exception as e:
                 closed[name] = type(e).__name__
     obs["closed_api"] = closed
+    # ---- calls that were in progress when stop() was called end as well (the application loops above leave on the
+    # stopped/closed error): a call parked on a stopped client for good keeps the application's own task alive
+    if kind == "consumer":
+        d2, p2 = await asyncio.wait(app_tasks, timeout=2.0)
+        obs["app_calls_blocked"] = len(p2)
+        if p2:
+            import traceback
+            obs["app_blocked_at"] = ["%s:%d %s" % (f.f_code.co_filename.rsplit("/", 1)[-1], f.f_lineno, f.f_code.co_name)
+                                     for t in p2 for f in t.get_stack()][:6]
+            cr = next(iter(p2)).get_coro()
+            chain = []
+            while cr is not None and len(chain) < 12:
+                fr = getattr(cr, "cr_frame", None) or getattr(cr, "gi_frame", None)
+                if fr is not None:
+                    chain.append("%s:%d %s" % (fr.f_code.co_filename.rsplit("/", 1)[-1], fr.f_lineno, fr.f_code.co_name))
+                cr = getattr(cr, "cr_await", None) or getattr(cr, "gi_yieldfrom", None)
+            obs["app_blocked_chain"] = chain
     # ---- nothing left: stop the harness' own tasks, then look at what remains of the client
     for t in app_tasks:
         t.cancel()
@@ -269,9 +295,21 @@ async def _scenario(workload, state, stop_at, obs, loop, net):
         cb = getattr(h._callback, "_v_inner", h._callback)
         r = repr(cb)
         if "aiokafka" in r or "AIOKafka" in r or _client_callback(cb):
-            timers.append(r[:120])
+            who = ""
+            for a in (h._args or ()):
+                try:
+                    o = a() if callable(a) else a
+                    who += (" " + repr(o)[:80] + " connected=%s tag=%s" % (o.connected(), getattr(getattr(getattr(getattr(o, "_writer", None), "transport", None), "_peer", None), "tag", "?"))) if o is not None else " <dead ref>"
+                except Exception:
+                    pass
+            timers.append(r[:120] + who)
     obs["left_timers"] = timers
     obs["left_transports"] = len([tr for tr in net.open_transports if getattr(tr._peer, "tag", None) == "main"])
+    # objects the client dropped without closing them report themselves through the loop's exception handler
+    import gc
+    gc.collect()
+    obs["unclosed_reports"] = [e["message"] for e in loop.exc_log
+                               if "Unclosed" in str(e.get("message")) and e.get("tag") == "main"][:5]
 
 
 def _client_callback(cb):
@@ -296,6 +334,8 @@ def run(workload, state, stop_at):
     net = TaggedNet(loop, latencies=[0.002, 0.004, 0.001], chunks=[0], connect_latencies=[0.001])
     simloop.set_clock_loop(loop)
     asyncio.set_event_loop(loop)
+    loop.set_exception_handler(lambda lp, ctx: lp.exc_log.append(
+        {"message": ctx.get("message"), "exception": repr(ctx.get("exception")), "tag": CLIENT_TAG.get(None)}))
     try:
         loop.run_until_complete(_scenario(workload, state, stop_at, obs, loop, net))
     except (simloop.Deadlock, simloop.VirtualTimeLimit, simloop.BusyLoop) as e:
@@ -323,7 +363,7 @@ def execute(case):
         out.fail("returns", site + ":deadlock", dict(det, deadlock=obs["deadlock"]))
     elif obs.get("stop_pending"):
         out.fail("returns", site + ":not_within_bound", dict(det, bound=bound()),
-                 broker_unreachable=bool(sc.get("nodes_down")) or s in ("node_refusing", "node_blackholed",
+                 broker_unreachable=bool(sc.get("nodes_down")) or s in ("node_refusing", "node_blackholed", "node_silent",
                                                                         "coordinator_refusing", "coordinator_blackholed"))
     elif obs.get("stop_error"):
         out.fail("returns", site + ":raised:" + obs["stop_error"].split("(")[0], dict(det, error=obs["stop_error"]))
@@ -334,10 +374,14 @@ def execute(case):
             out.fail("nothing_left", site + ":timers", dict(det, timers=obs["left_timers"][:5]))
         if obs.get("left_transports"):
             out.fail("nothing_left", site + ":connections", dict(det, open=obs["left_transports"]))
+        if obs.get("unclosed_reports"):
+            out.fail("nothing_left", site + ":dropped_unclosed", dict(det, reports=obs["unclosed_reports"]))
         for name, res in (obs.get("closed_api") or {}).items():
             want = "ProducerClosed" if w.startswith("producer") else "ConsumerStoppedError"
             if res != want:
                 out.fail("closed_api", "%s:%s:%s" % (site, name, res), dict(det, result=res, want=want))
+        if obs.get("app_calls_blocked"):
+            out.fail("closed_api", site + ":call_in_progress_never_returned", dict(det, blocked=obs["app_calls_blocked"], where=obs.get("app_blocked_chain")))
         if w in ("consumer_group", "consumer_group_unsub") and obs.get("coordinator_reachable") and "main" in obs.get("members_at_return", []):
             out.fail("left_group", site + ":still_a_member", dict(det, members=obs["members_at_return"]))
     out.nontrivial = bool(sc.get("inflight") or sc.get("nodes_down") or sc.get("group_state") in ("PreparingRebalance", "CompletingRebalance"))
@@ -368,7 +412,8 @@ def cases(shard, nshards, stride):
     i = 0
     for w in WORKLOADS:
         for s in STATES:
-            if w in ("producer_plain", "consumer_groupless", "consumer_groupless_unsub", "consumer_groupless_subscribe") \
+            if w in ("producer_plain", "consumer_groupless", "consumer_groupless_unsub", "consumer_groupless_subscribe",
+                     "consumer_groupless_getone") \
                     and s.startswith("coordinator"):
                 continue          # no coordinator involved
             if s == "commits_refused" and w not in ("consumer_group", "consumer_group_unsub"):
